@@ -5,11 +5,14 @@ package props
 import (
 	"bytes"
 	"fmt"
+	"github.com/ethereum/go-ethereum/common"
+	"github.com/ethereum/go-ethereum/core/types/goattypes"
 	"os"
 	"path/filepath"
 	"runtime"
 	"sort"
 	"testing"
+	"time"
 
 	abci "github.com/cometbft/cometbft/abci/types"
 	dbm "github.com/cosmos/cosmos-db"
@@ -23,6 +26,10 @@ type DetCase struct {
 	Replicas int      `json:"replicas"` // 1..2 extra replicas
 	Modes    []int    `json:"modes"`    // per block: 0 plain, 1 restart between FinalizeBlock and Commit, 2 GOMAXPROCS 1, 3 GOMAXPROCS 4, 4 restart before the block
 	OnDisk   bool     `json:"on_disk"`  // replica 0 keeps its state in an on-disk goleveldb
+	// Exodus: after the history one more block is executed (not committed) in which every validator, the anchor
+	// included, unlocks everything it holds: all members leave the set at once. Whatever the application answers
+	// (CometBFT would refuse an empty set), every replica must answer the same.
+	Exodus bool `json:"exodus,omitempty"`
 }
 
 type detReplica struct {
@@ -221,11 +228,55 @@ func runDetCase(c DetCase) Outcome {
 		}
 		o.Evals++
 	}
+	if c.Exodus && w.obs != nil {
+		lr := goattypes.LockingRequests{}
+		id := uint64(1_000_000)
+		for _, v := range w.obs.Validators {
+			idx := idxOfPubkey(v.Pubkey)
+			if idx < 0 {
+				continue
+			}
+			for _, coin := range v.Locking {
+				for ti := range c.Lock.Cfg.Tokens {
+					if tokenDenom(tokenAddrs[ti]) == coin.Denom {
+						id++
+						lr.Unlocks = append(lr.Unlocks, &goattypes.UnlockRequest{Id: id, Validator: valAccount(idx).EthAddr(), Recipient: common.BytesToAddress([]byte("exodus")), Token: tokenAddrs[ti], Amount: coin.Amount.BigInt()})
+					}
+				}
+			}
+		}
+		blk, txs, err := w.sim.Begin(world.StepOpts{DT: time.Second, Proposer: -1, Eth: world.EthBlockOpts{Plan: world.BuildPlan{Requests: lr.Encode()}}})
+		if err == nil {
+			req := blk.FinalizeReq(txs, w.sim.Chain.NextVals.Hash())
+			resp, err := w.sim.Node.Finalize(req)
+			for ri, r := range reps {
+				rr, rerr := r.node.Finalize(req)
+				what := fmt.Sprintf("exodus block, replica %d", ri)
+				if (err == nil) != (rerr == nil) {
+					o.Fail = failf("same-outcome", "replica-finalize-failed", "%s: primary error %v, replica error %v", what, err, rerr)
+					return o
+				}
+				if err == nil {
+					if fl := compareResponses(resp, rr, what); fl != nil {
+						o.Fail = fl
+						return o
+					}
+				}
+			}
+			o.Classes = append(o.Classes, fmt.Sprintf("exodus/updates=%d", func() int {
+				if resp == nil {
+					return -1
+				}
+				return len(resp.ValidatorUpdates)
+			}()))
+			o.NonTrivial = true
+		}
+	}
 	return o
 }
 
 func genDetCase(t *rapid.T) DetCase {
-	c := DetCase{Lock: genLockCase("C07", 30)(t), Replicas: rapid.IntRange(0, 1).Draw(t, "replicas"), OnDisk: rapid.IntRange(0, 3).Draw(t, "onDisk") == 0}
+	c := DetCase{Lock: genLockCase("C07", 30)(t), Replicas: rapid.IntRange(0, 1).Draw(t, "replicas"), OnDisk: rapid.IntRange(0, 3).Draw(t, "onDisk") == 0, Exodus: rapid.IntRange(0, 2).Draw(t, "exodus") == 0}
 	// more multi-validator lock batches with one failing entry
 	for i := range c.Lock.Blocks {
 		c.Modes = append(c.Modes, rapid.SampledFrom([]int{0, 0, 0, 1, 2, 3, 4}).Draw(t, "mode"))
@@ -247,7 +298,7 @@ func TestC07_Determinism(t *testing.T) {
 	RunProp(t, Prop[DetCase]{
 		ID: "C07", Name: "determinism", Quick: 400, Thor: 8000,
 		Gen: genDetCase, Run: runDetCase,
-		Rule: "kitchen-sink locking-world histories (all request kinds incl. adversarial ones: unknown validator/token, multi-validator lock batches where one entry fails, dust, several validators leaving, absences, evidence) executed on a primary and 1-2 replicas with separate stores (one optionally on on-disk goleveldb), separate fake execution layers and other node keys; per block a replica either executes plainly, is restarted between FinalizeBlock and Commit and executes the block again, is restarted before the block, or runs under GOMAXPROCS 1 or 4; every execution of the same block must agree on app hash, per-transaction code/codespace/gas wanted/gas used/data, the set of validator updates and the engine call log; non-trivial = the block has a failing transaction, >= 2 validator updates, or a restart/re-execution/GOMAXPROCS point; evaluations count blocks",
+		Rule: "kitchen-sink locking-world histories (all request kinds incl. adversarial ones: unknown validator/token, multi-validator lock batches where one entry fails, dust, several validators leaving, absences, evidence) executed on a primary and 1-2 replicas with separate stores (one optionally on on-disk goleveldb), separate fake execution layers and other node keys; per block a replica either executes plainly, is restarted between FinalizeBlock and Commit and executes the block again, is restarted before the block, or runs under GOMAXPROCS 1 or 4; every execution of the same block must agree on app hash, per-transaction code/codespace/gas wanted/gas used/data, the set of validator updates and the engine call log; non-trivial = the block has a failing transaction, >= 2 validator updates, or a restart/re-execution/GOMAXPROCS point; evaluations count blocks; a third of the histories end with an uncommitted block in which every validator, the anchor included, unlocks everything it holds, so that all members leave the set at once: primary and replicas must give the same answer",
 	})
 }
 
